@@ -283,7 +283,7 @@ def grid_shard(args):
     try:
         for src in sources:
             if isinstance(src, tuple):
-                data = src[1].encode("ascii").decode("unicode_escape").encode("utf-8", "surrogatepass")
+                data = src[1].encode("utf-8")
                 lines = run_lines(data, path="<zw>", session=(0, "-"))
                 agg.evaluations += 1
                 try:
